@@ -55,7 +55,15 @@ Again == <<   \* a container printed, changed, printed again: the second text sh
             SVar("w", Obj(<<"arr">>, <<Id("a")>>)), SPrint(Id("w")), SExpr(IAsg(Id("a"), Num(2), Lit(VNil))), SPrint(Id("w")), SPrint(Arr(<<Id("w"), Id("a")>>)) >>, c |-> "again", key |-> "again:array-through-holder"],
   [t |-> << SVar("o", Obj(<<"k">>, <<Num(1)>>)), SVar("p", Obj(<<"k">>, <<Num(2)>>)), SPrint(Id("o")), SPrint(Id("p")), SPrint(Id("o")), SExpr(Call(Id("delkey"), <<Id("p"), Str("k")>>)), SExpr(PAsg(Id("p"), "m", Num(3))),
             SPrint(Id("p")), SPrint(Id("o")), SVar("q", Obj(<<"m">>, <<Num(9)>>)), SPrint(Id("q")) >>, c |-> "again", key |-> "again:two-objects-same-size"] >>
-Cases == SetToSeq({ [t |-> Prog1(v[3], IsPlainStr(v), v[2] \notin {"nil", "bool"}), c |-> v[2], key |-> "print:" \o v[1]] : v \in Values }) \o Again
+(* delimiters of printed arrays are not prescribed - but they are the same everywhere: the first three lines teach the
+   harness the opening, the closing and the separator, every later line is then determined character by character *)
+E0 == Str("")
+Seps == << [t |-> << SPrint(Arr(<<>>)), SPrint(Arr(<<Str("a")>>)), SPrint(Arr(<<Str("a"), Str("b")>>)),
+                     SPrint(Arr(<<E0, Str("a"), Str("b")>>)), SPrint(Arr(<<Str("a"), E0, Str("b")>>)), SPrint(Arr(<<Str("a"), Str("b"), E0>>)), SPrint(Arr(<<E0, E0>>)), SPrint(Arr(<<E0>>)),
+                     SPrint(Arr(<<E0, E0, Str("x y"), E0>>)), SPrint(Arr(<<Arr(<<>>), Arr(<<E0>>), Arr(<<E0, Str("q")>>)>>)), SPrint(Arr(<<E0, Arr(<<E0, E0>>), E0>>)),
+                     SVar("g", Arr(<<Str("z"), E0>>)), SExpr(IAsg(Id("g"), Num(0), E0)), SPrint(Id("g")), SPrint(Call(Id("push"), <<Arr(<<>>), E0, Str("k")>>)), SPrint(Call(Id("remove"), <<Arr(<<Str("r"), E0, E0>>), Num(0)>>)) >>,
+              c |-> "separators", key |-> "seps:arrays-of-strings"] >>
+Cases == SetToSeq({ [t |-> Prog1(v[3], IsPlainStr(v), v[2] \notin {"nil", "bool"}), c |-> v[2], key |-> "print:" \o v[1]] : v \in Values }) \o Again \o Seps
 Programs == TLCEval([i \in 1..Len(Cases) |-> LayoutProg(Cases[i].t, 1)])
 FamProgOf(i) == Programs[i]
 Init == \E i \in 1..Len(Programs) : InitSem(i, <<>>, FALSE)
